@@ -221,6 +221,19 @@ Theorem declarator_kinds_follow_the_source : forall b items last le,
   map is_fn_entry (map (ditem_entry b) items ++ [last_entry b last le]) = map last_is_fn (items ++ [last]).
 Proof. exact kinds_follow_declarators. Qed.
 
+(* typedef statements through the same loop: `typedef cv* T cv* d1, ..., dn ;` where every d is an object declarator or a
+   function declarator (with an optional exception specification), in any mixture: one typedef per declarator, in order,
+   of the object type / of the function type built on the shared base type *)
+Theorem typedef_statement_with_function_types_decodes_partial : forall pre post b items last rest,
+  forallb (fun k => (k =? T_const) || (k =? T_volatile)) (pre ++ post) = true ->
+  Forall td_item_ok items -> td_item_ok last ->
+  let m := apply_kws (pre ++ post) mods0 in
+  let bt := TBase b (m_const m) (m_volatile m) in
+  ev (fun f => typedef_decl_stmt (S (length items)) f
+                 (kw_toks pre ++ nm_tok b :: kw_toks post ++ items_toks items last LSemi ++ rest))
+     (DOk (map (ditem_entry bt) items ++ [ditem_entry bt last], rest)).
+Proof. exact typedef_decl_stmt_roundtrip. Qed.
+
 (* What a `template` statement is handed on to (_parse_template): behind ONE header
    the next token selects the continuation -- `using`, `friend`, `concept`, a
    requires-clause, or (any other token) a declaration that starts with that
@@ -311,6 +324,7 @@ Print Assumptions enum_definition_decodes_partial.
 Print Assumptions parameters_with_defaults_decode_partial.
 Print Assumptions declaration_statement_decodes_partial.
 Print Assumptions declarator_kinds_follow_the_source.
+Print Assumptions typedef_statement_with_function_types_decodes_partial.
 Print Assumptions template_statement_one_header_partial.
 Print Assumptions template_statement_many_headers_partial.
 Print Assumptions explicit_instantiation_consumes_nothing.
